@@ -89,6 +89,11 @@ def main(ctx):
                                      "part": part, "parts": 4, "tier": tier})
                     jobs.append({"kind": "corrupt", "tkind": kind, "role": role, "sid": sid,
                                  "tier": tier})
+                if not thorough:
+                    # quick: the batched serializers at least through the corruption grid
+                    for sid in ("json.batched", "cbor.batched"):
+                        jobs.append({"kind": "corrupt", "tkind": kind, "role": role, "sid": sid,
+                                     "tier": tier})
             for sid in bsids:
                 jobs.append({"kind": "pair", "tkind": kind, "sid": sid, "tier": tier})
         # heavy jobs first
@@ -976,8 +981,62 @@ def job_corrupt(a, acc):
                         case_corrupt(acc, {"kind": "corrupt1", "tkind": tkind, "role": role, "sid": sid,
                                            "fbd": fbd, "ck": ck, "variant": v, "pos": pos,
                                            "segmode": segmode})
+                        if acc.fw == "tx" and segmode == "one":
+                            # a transport without abortConnection() (stdio / subprocess pipes)
+                            case_corrupt(acc, {"kind": "corrupt1", "tkind": tkind, "role": role, "sid": sid,
+                                               "fbd": fbd, "ck": ck, "variant": v, "pos": pos,
+                                               "segmode": segmode, "pipe": True})
+                            acc.inc("pipe_like_transport|%s" % tkind)
     acc.samples.append({"kind": "corrupt", "transport": tkind, "role": role, "sid": sid,
                         "cases": acc.evals})
+
+
+def _ref_decodes(sid, octets):
+    """independent of the library: do these octets decode - with the raw codec and the documented
+    batch framing (JSON: every message terminated by 0x18; binary: 32-bit length prefixes that cover
+    the payload exactly) - into >= 1 structures the reference grammar does not reject?"""
+    from ref import wamp_grammar as G
+    base, _, bt = sid.partition(".")
+    batched = bt == "batched"
+    try:
+        if batched:
+            if base == "json":
+                if not octets.endswith(b"\x18"):
+                    return False
+                chunks = octets[:-1].split(b"\x18")
+            else:
+                chunks, i = [], 0
+                while i < len(octets):
+                    if i + 4 > len(octets):
+                        return False
+                    n = int.from_bytes(octets[i:i + 4], "big")
+                    if i + 4 + n > len(octets):
+                        return False
+                    chunks.append(octets[i + 4:i + 4 + n])
+                    i += 4 + n
+            if not chunks:
+                # a batch of zero messages: well-formed framing, nothing to deliver - not judged
+                return True
+        else:
+            chunks = [octets]
+        for c in chunks:
+            if base == "json":
+                import json
+                st = json.loads(c.decode("utf8"))
+            elif base == "msgpack":
+                import msgpack
+                st = msgpack.unpackb(c, raw=False)
+            elif base == "cbor":
+                import cbor2
+                st = cbor2.loads(c)
+            else:
+                import bjdata
+                st = bjdata.loadb(c)
+            if G.validate(G.plain(st)) == "reject":
+                return False
+        return True
+    except Exception:
+        return False
 
 
 def _is_utf8(b):
@@ -1041,11 +1100,8 @@ def case_corrupt(acc, a):
             obj = {"dict": {"a": 1}, "emptylist": [], "strtype": ["x", 1], "unknowntype": [9999, 1],
                    "short-hello": [1], "int": 5}[v]
             bad = ser._serializer.serialize(obj)
-        try:
-            ok = L.wamp_decode(sid, bad, b)
-        except Exception:
-            ok = None
-        if ok is not None:
+        if _ref_decodes(sid, bad):
+            # the "corruption" happens to be a well-formed message (batch) again: nothing to refuse
             acc.inc("corruption_benign")
             return
         frames[pos] = peer_frame(tkind, role, bad, b)
@@ -1062,7 +1118,14 @@ def case_corrupt(acc, a):
         delivered_exp = pos + 1
     maker = L.SessionMaker("real" if real else "rec", plan)
     ws_opts = {"failByDrop": fbd} if tkind == "ws" else None
-    ep = L.open_endpoint(tkind, role, sid, maker=maker, ws_opts=ws_opts)
+    if a.get("pipe"):
+        from env import tx as _tx
+        _tx.PIPE_LIKE = True
+    try:
+        ep = L.open_endpoint(tkind, role, sid, maker=maker, ws_opts=ws_opts)
+    finally:
+        if a.get("pipe"):
+            _tx.PIPE_LIKE = False
     hello = ep.take()
     stream = b"".join(frames)
     if a["segmode"] == "one":
